@@ -294,7 +294,7 @@ def specVerdict (m : M) (op : String) (a r : Array UInt64) : Option Bool :=
   | "ceil", 1 => some (m.same r0 (m.ceilS x))
   | "trunc", 1 => some (m.same r0 (m.truncS x))
   | "round", 1 => some (m.same r0 (m.roundS x))
-  | "roundEven", 1 => some (m.same r0 (m.rintS x))
+  | "roundEven", 1 => some (m.zsame r0 (m.rintS x))      -- GLSL does not define the sign of a zero result
   | "fract", 1 => some (if m.isFinite x then m.in01 r0 && m.same r0 (m.fadd x (m.floorS x ^^^ m.signMask)) else m.isNaN r0)
   | "repeat", 1 => some (if m.isFinite x then m.in01 r0 else m.isNaN r0)
   | "mirrorClamp", 1 => some (if m.isFinite x then m.in01 r0 else m.isNaN r0)
@@ -382,7 +382,7 @@ over to glm. -/
 def sweepSpec (op : String) : UInt32 → UInt32 → Bool :=
   let op : String := if op.startsWith "v" then (op.drop 1).copy else op
   match op with
-  | "roundEven" => fun x r => same r (rintS x)
+  | "roundEven" => fun x r => same r (rintS x) || (isZero r && isZero (rintS x))
   | "fract" | "repeat" | "mirrorClamp" | "mirrorRepeat" => fun x r => !isFinite x || (le fZero r && le r fOne)
   | "wrapClamp" => fun x r => isNaN x || (le fZero r && le r fOne)
   | "iround" => fun x r => !irDom x || (if expo x < 126 then r == 0 else idist x r.toUInt64 ≤ 0x800000)
@@ -392,6 +392,11 @@ def sweepSpec (op : String) : UInt32 → UInt32 → Bool :=
   | "fbti" | "fbtu" | "ibtf" | "ubtf" => fun x r => r == x
   | _ => fun _ _ => true
 
+
+/-- ops whose results are compared bit for bit (NaN payloads included); the others: NaN as a class -/
+def sweepExact (op : String) : Bool :=
+  let op : String := if op.startsWith "v" then (op.drop 1).copy else op
+  ["abs", "sign", "isnan", "isinf", "iround", "uround", "wrapClamp", "fbti", "fbtu", "ibtf", "ubtf"].contains op
 
 def libmMinMax (op : String) : Bool :=
   ["fmin2", "fmax2", "fmin3", "fmax3", "fmin4", "fmax4", "fclamp", "vfmin2", "vfmax2", "vfmin3", "vfmax3",
@@ -501,11 +506,6 @@ partial def runLines (buf : ByteArray) : IO Stats := do
   return st
 
 -- ------------------------------------------------------------------ sweep loop
-/-- ops whose results are compared bit for bit (NaN payloads included); the others: NaN as a class -/
-def sweepExact (op : String) : Bool :=
-  let op : String := if op.startsWith "v" then (op.drop 1).copy else op
-  ["abs", "sign", "isnan", "isinf", "iround", "uround", "wrapClamp", "fbti", "fbtu", "ibtf", "ubtf"].contains op
-
 def low6 : Array UInt32 := #[0, 1, 0xFFF, 0x1000, 0x1001, 0x1FFF]
 @[inline] def sweepInput (thorough : Bool) (idx : UInt64) : UInt32 :=
   if thorough then idx.toUInt32 else (((idx / 6) <<< 13).toUInt32) ||| low6[(idx % 6).toNat]!
